@@ -73,13 +73,13 @@ static void vg_merge(void *clos, const uint8_t *key, size_t lk, const uint8_t *v
 {
 	if (vg_merge_calls == 0) {
 		int e0 = vg_entry_of(v0, l0);
-		VG_P("C04", e0 >= 0 && !(vg_used & (1u << e0)) && SLK[e0] == lk && (lk == 0 || SKEY[e0] == key[0]), "the fold starts from the value of a source entry with that key");
+		VG_P("C04,C06", e0 >= 0 && !(vg_used & (1u << e0)) && SLK[e0] == lk && (lk == 0 || SKEY[e0] == key[0]), "the fold starts from the value of a source entry with that key");
 		if (e0 >= 0) vg_used |= 1u << e0;
 	} else {
-		VG_P("C04", l0 == vg_fold_len && (l0 < 1 || v0[0] == vg_fold[0]) && (l0 < 2 || v0[1] == vg_fold[1]), "the left operand of every later merge call is the result of the previous one (an empty result included)");
+		VG_P("C04,C06", l0 == vg_fold_len && (l0 < 1 || v0[0] == vg_fold[0]) && (l0 < 2 || v0[1] == vg_fold[1]), "the left operand of every later merge call is the result of the previous one (an empty result included)");
 	}
 	int e1 = vg_entry_of(v1, l1);
-	VG_P("C04", e1 >= 0 && !(vg_used & (1u << e1)) && SLK[e1] == lk && (lk == 0 || SKEY[e1] == key[0]), "the right operand is the value of a source entry with that key that has not been used yet");
+	VG_P("C04,C06", e1 >= 0 && !(vg_used & (1u << e1)) && SLK[e1] == lk && (lk == 0 || SKEY[e1] == key[0]), "the right operand is the value of a source entry with that key that has not been used yet");
 	if (e1 >= 0) vg_used |= 1u << e1;
 	vg_merge_calls++;
 	if (vg_merge_fail_now) { *out = NULL; *lo = 0; return; }
@@ -93,7 +93,7 @@ static uint8_t DR[NS * NEs]; static unsigned vg_dupsort_calls;
 static int vg_dupsort(void *clos, const uint8_t *key, size_t lk, const uint8_t *v0, size_t l0, const uint8_t *v1, size_t l1)
 {
 	int e0 = vg_entry_of(v0, l0), e1 = vg_entry_of(v1, l1); vg_dupsort_calls++;
-	VG_P("C04", e0 >= 0 && e1 >= 0 && SLK[e0] == lk && SLK[e1] == lk && (lk == 0 || (SKEY[e0] == key[0] && SKEY[e1] == key[0])), "dupsort is asked about two source entries that carry the same key, with that key");
+	VG_P("C04,C06", e0 >= 0 && e1 >= 0 && SLK[e0] == lk && SLK[e1] == lk && (lk == 0 || (SKEY[e0] == key[0] && SKEY[e1] == key[0])), "dupsort is asked about two source entries that carry the same key, with that key");
 	if (e0 < 0 || e1 < 0) return 0;
 	return DR[e0] < DR[e1] ? -1 : DR[e0] > DR[e1];
 }
@@ -155,10 +155,10 @@ static struct merger_iter *vg_any_state(_Bool with_merge)
 			live++;
 		} else { SIT(s).pos = nondet_u32(); __CPROVER_assume(SIT(s).pos <= SN[s]); ENT(s).key = &KBUF[s]; ENT(s).len_key = nondet_size(); ENT(s).val = &VBUF[2 * s]; ENT(s).len_val = 2; }
 		if (in_entries) entry_vec_add(it->entries, &ENT(s));
-		/* M: consumed entries are <= the remembered key, unconsumed ones >= it (when one is remembered) */
+		/* M: consumed (passed) entries are <= the remembered key (when one is remembered); this is what a later forward seek relies on */
 		if (lc > 0) for (unsigned i = 0; i < NEs; i++) if (i < SN[s]) {
 			int r = vg_cmp(&SKEY[s * NEs + i], SLK[s * NEs + i], &c, lc);
-			if (i < H[s]) __CPROVER_assume(r <= 0); else __CPROVER_assume(r >= 0);
+			if (i < H[s]) __CPROVER_assume(r <= 0);     /* entries not yet passed may lie on either side of the remembered key (after a backward seek they lie below it) */
 		}
 		if (lc == 0) __CPROVER_assume(H[s] == 0 || 1);
 	}
@@ -195,12 +195,12 @@ static void vg_check_M(struct merger_iter *it, const unsigned *P)
 	/* heap = exactly the sources with an unconsumed head at P[s]; each head entry shows that entry */
 	unsigned live = 0;
 	for (unsigned s = 0; s < NS; s++) if (s < vg_ns && P[s] < SN[s]) live++;
-	VG_P("C04,C05", heap_size(it->h) == live, "the heap holds exactly the sources that still have entries");
+	VG_P("C04,C05,C06", heap_size(it->h) == live, "the heap holds exactly the sources that still have entries");
 	for (unsigned j = 0; j < NS; j++) if (j < heap_size(it->h)) {
 		struct entry *e = heap_get(it->h, j); unsigned s = e->it->s;
-		VG_P("C04,C05", P[s] < SN[s] && e->len_key == SLK[s * NEs + P[s]] && (e->len_key == 0 || e->key[0] == SKEY[s * NEs + P[s]]) && e->it->pos == P[s] + 1,
+		VG_P("C04,C05,C06", P[s] < SN[s] && e->len_key == SLK[s * NEs + P[s]] && (e->len_key == 0 || e->key[0] == SKEY[s * NEs + P[s]]) && e->it->pos == P[s] + 1,
 		     "each heap entry is the next unconsumed entry of its source");
-		if (j > 0) VG_P("C04,C05", _mtbl_merger_compare(heap_get(it->h, 0), e, it->m) <= 0, "the heap top is the smallest head");
+		if (j > 0) VG_P("C04,C05,C06", _mtbl_merger_compare(heap_get(it->h, 0), e, it->m) <= 0, "the heap top is the smallest head");
 	}
 }
 
@@ -223,30 +223,30 @@ void h_merger_next_step(void)
 	const uint8_t *k, *v; size_t lk, lv;
 	mtbl_res res = merger_iter_next(it, &k, &lk, &v, &lv);
 	VG_REACH("merger_iter_next returns");
-	VG_P("C04,C05", (res == mtbl_res_success) == have, "next succeeds iff some source still has an entry");
+	VG_P("C04,C05,C06", (res == mtbl_res_success) == have, "next succeeds iff some source still has an entry");
 	if (res == mtbl_res_success && have) {
 		VG_REACH("merger_iter_next succeeds");
-		VG_P("C04,C05", lk == ml && (lk == 0 || k[0] == mk), "next returns the smallest key among the sources' next entries (ascending order; the empty key included)");
+		VG_P("C04,C05,C06", lk == ml && (lk == 0 || k[0] == mk), "next returns the smallest key among the sources' next entries (ascending order; the empty key included)");
 		uint16_t got = (lv == 2) ? (uint16_t)(v[0] | v[1] << 8) : 0;
 		if (in_merge) {
 			if (cnt >= 2) {
-				VG_P("C04", vg_used == want_used && vg_merge_calls == cnt - 1, "every value the sources hold for that key is used by the fold exactly once");
-				VG_P("C04", lv == vg_fold_len && (lv < 1 || v[0] == vg_fold[0]) && (lv < 2 || v[1] == vg_fold[1]), "the value returned is the result of the last merge call (an empty merged value included)");
+				VG_P("C04,C06", vg_used == want_used && vg_merge_calls == cnt - 1, "every value the sources hold for that key is used by the fold exactly once");
+				VG_P("C04,C06", lv == vg_fold_len && (lv < 1 || v[0] == vg_fold[0]) && (lv < 2 || v[1] == vg_fold[1]), "the value returned is the result of the last merge call (an empty merged value included)");
 			} else {
-				VG_P("C04", vg_merge_calls == 0 && lv == 2 && vg_entry_of(v, lv) >= 0 && (1u << vg_entry_of(v, lv)) == want_used, "a key present in a single source passes through unchanged");
+				VG_P("C04,C06", vg_merge_calls == 0 && lv == 2 && vg_entry_of(v, lv) >= 0 && (1u << vg_entry_of(v, lv)) == want_used, "a key present in a single source passes through unchanged");
 			}
 			vg_check_M(it, P);
 		} else {
-			VG_P("C04", lv == 2, "value length");
+			VG_P("C04,C06", lv == 2, "value length");
 			/* the emitted entry is one of the entries with the minimal key; its source advanced by one */
 			unsigned who = NS;
 			for (unsigned s = 0; s < NS; s++) if (s < vg_ns && P[s] < SN[s] && SVAL[s * NEs + P[s]] == got && vg_cmp(&SKEY[s * NEs + P[s]], SLK[s * NEs + P[s]], &mk, ml) == 0) who = s;
-			VG_P("C04", who < NS && vg_merge_calls == 0, "without a merge function every source entry is emitted unchanged, smallest key first");
+			VG_P("C04,C06", who < NS && vg_merge_calls == 0, "without a merge function every source entry is emitted unchanged, smallest key first");
 			if (vg_with_dupsort && who < NS) for (unsigned s = 0; s < NS; s++) if (s < vg_ns && s != who && P[s] < SN[s] && vg_cmp(&SKEY[s * NEs + P[s]], SLK[s * NEs + P[s]], &mk, ml) == 0)
-				VG_P("C04", DR[who * NEs + P[who]] <= DR[s * NEs + P[s]], "entries with equal keys are emitted in the order of the dupsort function");
+				VG_P("C04,C06", DR[who * NEs + P[who]] <= DR[s * NEs + P[s]], "entries with equal keys are emitted in the order of the dupsort function");
 			if (who < NS) { P[who]++; vg_check_M(it, P); }
 		}
-		VG_P("C04,C05", ubuf_size(it->cur_key) == lk && k == ubuf_data(it->cur_key), "the returned key is the iterator's own copy (sources may invalidate their buffers)");
+		VG_P("C04,C05,C06", ubuf_size(it->cur_key) == lk && k == ubuf_data(it->cur_key), "the returned key is the iterator's own copy (sources may invalidate their buffers)");
 	}
 }
 
@@ -263,8 +263,8 @@ void h_merger_fail_step(void)
 	const uint8_t *k, *v; size_t lk, lv;
 	mtbl_res res = merger_iter_next(it, &k, &lk, &v, &lv);
 	VG_REACH("merger_iter_next returns (failing merge function)");
-	if (have && cnt >= 2) VG_P("C04", res == mtbl_res_failure, "if the merge function reports failure, the call that would have produced that key returns failure");
-	if (have && cnt == 1) VG_P("C04", res == mtbl_res_success && vg_merge_calls == 0, "keys present once pass through without calling the merge function");
+	if (have && cnt >= 2) VG_P("C04,C06", res == mtbl_res_failure, "if the merge function reports failure, the call that would have produced that key returns failure");
+	if (have && cnt == 1) VG_P("C04,C06", res == mtbl_res_success && vg_merge_calls == 0, "keys present once pass through without calling the merge function");
 }
 
 /* ======================================================================= seek then next, from any state */
@@ -283,6 +283,10 @@ void h_merger_seek_step(void)
 	for (unsigned s = 0; s < NS; s++) { unsigned p = 0; for (unsigned i = 0; i < NEs; i++) if (i < SN[s] && vg_cmp(&SKEY[s * NEs + i], SLK[s * NEs + i], &in_k, in_lk) < 0) p = i + 1; P[s] = p; }
 	vg_check_M(it, P);
 	VG_P("C05", !it->pending, "seek leaves no half-built entry");
+	/* directly after the seek (a second seek may follow without a next in between): every entry that has been passed is <= the
+	 * remembered key, so that a later seek to a key above the remembered one may take the forward path */
+	if (ubuf_size(it->cur_key) > 0) for (unsigned s = 0; s < NS; s++) if (s < vg_ns) for (unsigned i = 0; i < NEs; i++) if (i < P[s])
+		VG_P("C05", vg_cmp(&SKEY[s * NEs + i], SLK[s * NEs + i], ubuf_data(it->cur_key), ubuf_size(it->cur_key)) <= 0, "invariant M after seek: every entry passed over is <= the remembered key (a seek that only advanced sources must remember its target)");
 	uint8_t mk = 0; size_t ml = 0; _Bool have = vg_min_from(P, &mk, &ml);
 	unsigned want_used = 0, cnt = 0;
 	if (have && in_merge) for (unsigned s = 0; s < NS; s++) if (s < vg_ns) { unsigned p = P[s]; while (p < SN[s] && vg_cmp(&SKEY[s * NEs + p], SLK[s * NEs + p], &mk, ml) == 0) { want_used |= 1u << (s * NEs + p); p++; cnt++; } }
